@@ -184,7 +184,7 @@ def build_rep(repo, spec_dir, canary=False):
     if i0 < 0: raise X.LostAnchor('regexp.rs::grapheme_clusters guard of convert_repetitions')
     cond, _, _ = X.if_condition(gcf[i0 + 1:], 'if ')
     b.slice_fn('rep_gate', 'pub fn rep_gate(config: &RegExpConfig) -> (r: bool)', '    ' + cond, 'regexp.rs::grapheme_clusters condition guarding convert_repetitions', props=['C07'],
-               clauses=[Clause('rep_gate.only_on_request', 'r == config.is_repetition_converted', ['C13'])])
+               clauses=[Clause('rep_gate.only_on_request', 'r == config.is_repetition_converted', ['C13', 'C05'])])
     rf, _, _ = X.fn(cl, 'replace_graphemes_with_repetitions')
     # the guard of the `continue` in the splice loop (anchored structurally: the if-statement whose block is just `continue;`)
     import re as _re
